@@ -39,6 +39,9 @@ CODES = {1: "Gallina model of the SBML codec / bound parameters / written docume
          3: "round trip changed the model content", 6: "round trip changed the raw LP in the solver",
          7: "the SBML validator reports errors on the written document / second trip changed the model",
          8: "second trip failed"}
+STEPS = "steps 1-3 = id codec / bound parameters, 4 = validator, 5 = write_doc vs the written document, 6 = read_doc of the " \
+        "written document vs the model read, 7 = round trip of the model vs norm (theorem instance / implementation), " \
+        "8 = duplicate SId accepted by the validator, 100+t / 200+t = first / second trip via "
 NS = {"s": "http://www.sbml.org/sbml/level3/version1/core", "f": "http://www.sbml.org/sbml/level3/version1/fbc/version2",
       "g": "http://www.sbml.org/sbml/level3/version1/groups/version1"}
 FBC = "{%s}" % NS["f"]
@@ -76,6 +79,15 @@ def sbml_domain(rng, spec):
             g["annotation"]["sbo"] = "SBO:0000243"
     if "sbo" in s["annotation"]:
         del s["annotation"]["sbo"]
+    if s["rxns"] and rng.random() < 0.06:                                  # known finding: 15 significant digits
+        r = rng.choice(s["rxns"])
+        k = rng.randrange(3)
+        if k == 0 and r["stoich"]:
+            r["stoich"][0][1] = rng.choice([1 / 3, -2 / 3, 0.1 + 0.2])
+        elif k == 1:
+            r["bounds"] = [r["bounds"][0], max(r["bounds"][1], 0) + rng.choice([1 / 3, 0.1 + 0.2])]
+        else:
+            r["objective"] = rng.choice([1 / 3, 2 / 3])
     s["compartments"] = {k: v for k, v in s["compartments"].items() if k != "unused" and k != ""}
     s["sort"] = False
     # groups of reactions / metabolites / genes
@@ -86,6 +98,8 @@ def sbml_domain(rng, spec):
             for x in s[key]:
                 if rng.random() < 0.4:
                     members.append([kind, x["id"]])
+        if s["genes"] and rng.random() < 0.08:
+            members.append(["genes", rng.choice(s["genes"])["id"]])      # known finding: cannot be read back
         s["groups"].append({"id": "grp%d" % gi, "name": rng.choice(["", "Group A"]),
                             "kind": rng.choice(["collection", "classification", "partonomy"]), "members": members})
     return s
@@ -463,11 +477,36 @@ def diff_paths(a, b, path=""):
     return [] if a == b else [path]
 
 
+def _f(n):
+    return float("-inf" if n[1] else "inf") if n[0] == "inf" else n[1] / n[2] if n[0] == "q" else float("nan")
+
+
+def lost_digits(o0, o1):
+    """every number of the reactions came back as float('%.15g' % x), and at least one of them changed"""
+    if len(o0["rxns"]) != len(o1["rxns"]):
+        return False
+    changed = False
+    for a, b in zip(o0["rxns"], o1["rxns"]):
+        pairs = [(a["lb"], b["lb"]), (a["ub"], b["ub"]), (a["objective"], b["objective"])]
+        if len(a["stoich"]) != len(b["stoich"]):
+            return False
+        pairs += [(x[1], y[1]) for x, y in zip(a["stoich"], b["stoich"])]
+        for x, y in pairs:
+            if float("%.15g" % _f(x)) != _f(y):
+                return False
+            changed = changed or _f(x) != _f(y)
+    return changed
+
+
 def cause_of(spec, out, step, code):
     """A label for the failure, computed from the implementation's observations (used in signatures)."""
     if step < 100:
         if code in (20, 21):
             return "id_with_escape_pattern"
+        if step == 3 and code == 2 and all(vlb is not None and vub is not None and float("%.15g" % _f(lb)) == _f(vlb)
+                                           and float("%.15g" % _f(ub)) == _f(vub)
+                                           for _, lb, ub, _, vlb, _, vub in out["bounds"]):
+            return "number_15_digits"
         return "codec_or_bounds"
     tag = step % 100
     t = [t for t in out["trips"] if t[0] == tag]
@@ -479,6 +518,8 @@ def cause_of(spec, out, step, code):
     if "err" in r1:
         if r1.get("stage") == "write" and any(m["compartment"] is None for m in spec["mets"]):
             return "write_fails_compartment_none"
+        if r1.get("stage") == "read" and any(k == "genes" for g in spec.get("groups", []) for k, _ in g["members"]):
+            return "group_with_gene_member"
         return "%s_%s" % (r1.get("stage"), r1["err"])
     if step >= 200:
         return "second_trip"
@@ -491,6 +532,9 @@ def cause_of(spec, out, step, code):
         atoms.append("id_with_escape_pattern")
         paths = {p for p in paths if not (p.endswith("/id") or "/stoich" in p or p.startswith("/notes") or "/genes" in p
                                            or p.endswith("/rule"))}
+    if lost_digits(out["obs0"], r1["ok"]):
+        atoms.append("number_15_digits")
+        paths = {p for p in paths if not p.startswith(("/rxns/#/stoich", "/rxns/#/lb", "/rxns/#/ub", "/rxns/#/objective"))}
     if "/mets/#/charge" in paths and all(
             (a["charge"] is None and b["charge"] == ["q", 0, 1]) or a["charge"] == b["charge"]
             for a, b in zip(out["obs0"]["mets"], r1["ok"]["mets"])):
@@ -695,7 +739,8 @@ def run(args, rep, info, broken, rng):
         for s, c in codes[i]:
             if c == 7 and s < 100:
                 cause = "validator:" + ("objective_without_flux_objectives" if any(
-                    "listOfFluxObjectives" in m for m in outs[i]["validator"]) else "other")
+                    "listOfFluxObjectives" in m for m in outs[i]["validator"]) else "duplicate_sid" if any(
+                    "Duplicate 'id'" in m for m in outs[i]["validator"]) else "other")
             else:
                 cause = cause_of(specs[i], outs[i], s, c)
             seen.setdefault((c, cause), []).append(i)
@@ -711,9 +756,9 @@ def run(args, rep, info, broken, rng):
                   "failing_steps": c2[0][:8], "n_cases_of_this_kind": len(seen[key]),
                   "exceptions": [(VARIANTS[t], r1.get("stage"), r1.get("err"), r1.get("msg")) for t, r1, r2 in o2[0]["trips"] if "err" in r1],
                   "validator_messages": o2[0]["validator"], "codec_observations": o2[0]["ids"][-6:],
-                  "how_to_read": "case = model spec (harness/io_models.py: build); steps 1-3 = id codec / bound parameters, "
-                                 "4 = validator, 100+t / 200+t = first / second trip via " + ",".join(VARIANTS),
-                  "theorem": "C10_sid_roundtrip / C10_bound_param_roundtrip / C10_read_bounds (coq/theories/Properties/C10.v)"}
+                  "how_to_read": "case = model spec (harness/io_models.py: build); " + STEPS + ",".join(VARIANTS),
+                  "theorem": "C10_sbml_doc_roundtrip / C10_gpr_assoc_roundtrip / C10_sid_roundtrip / C10_bound_param_roundtrip / "
+                             "C10_read_bounds (coq/theories/Properties/C10.v)"}
         rep.violation(sig, replay)
 
     tp_results, tp_problems = ([], []) if args.replay else third_party(args.tier)
